@@ -221,11 +221,16 @@ class ParamikoTransport(Transport):
         if not self.session:
             raise ScrapliConnectionNotOpened
 
-        with suppress(AuthenticationException):
+        try:
             self.session.auth_password(
                 username=self.plugin_transport_args.auth_username,
                 password=self.plugin_transport_args.auth_password,
             )
+        except AuthenticationException:
+            pass
+        except Exception:  # pylint: disable=W0703
+            # same as public key auth; connection lost during auth == not authenticated
+            pass
 
     def _open_channel(self) -> None:
         """
@@ -244,10 +249,14 @@ class ParamikoTransport(Transport):
         if not self.session:
             raise ScrapliConnectionNotOpened
 
-        self.session_channel = self.session.open_session()
-        self._set_timeout(self._base_transport_args.timeout_transport)
-        self.session_channel.get_pty()
-        self.session_channel.invoke_shell()
+        try:
+            self.session_channel = self.session.open_session()
+            self._set_timeout(self._base_transport_args.timeout_transport)
+            self.session_channel.get_pty()
+            self.session_channel.invoke_shell()
+        except Exception as exc:
+            self.logger.critical("failed to open session channel")
+            raise ScrapliConnectionNotOpened("failed to open session channel") from exc
 
     def close(self) -> None:
         self._pre_open_closing_log(closing=True)
@@ -271,6 +280,12 @@ class ParamikoTransport(Transport):
     def isalive(self) -> bool:
         if not self.session:
             return False
+        if self.session_channel is not None and (
+            self.session_channel.closed or self.session_channel.eof_received
+        ):
+            # the device ended the session (channel closed / at eof), even if the transport below
+            # happens to still be up
+            return False
         _isalive: bool = self.session.is_alive()
         return _isalive
 
@@ -286,12 +301,26 @@ class ParamikoTransport(Transport):
             )
             self.logger.critical(msg)
             raise ScrapliConnectionError(msg) from exc
+        if not buf:
+            # paramiko returns zero bytes only once the channel stream is closed; reading again would
+            # return immediately, for ever
+            msg = (
+                "encountered EOF reading from transport; typically means the device closed the "
+                "connection"
+            )
+            self.logger.critical(msg)
+            raise ScrapliConnectionError(msg)
         return buf
 
     def write(self, channel_input: bytes) -> None:
         if not self.session_channel:
             raise ScrapliConnectionNotOpened
-        self.session_channel.send(channel_input)
+        try:
+            self.session_channel.send(channel_input)
+        except OSError as exc:
+            raise ScrapliConnectionError(
+                f"encountered error writing to transport, connection lost: {exc!r}"
+            ) from exc
 
     def _set_timeout(self, value: float) -> None:
         """
